@@ -267,9 +267,9 @@ def w3(fb, chk):
             fv = const_eval(fb, m.sym, args[1])
             role = caller_role(g)
             if role == "reply":
-                chk.check(fv == wire.FLAG_REPLY, "W3", key, "reply header built with flags = REPLY",
-                          "reply header built with flags %s (want REPLY = 0x4 only)" % (hex(fv) if fv is not None else show(args[1])),
-                          g.loc(t["line"]))
+                # decided on the value the constructor function returns (below): the argument given to `new` is only
+                # one of the ways the flags word can be put together
+                chk.ok("W3", key, "reply header: flags decided on the returned value (reply-header-value)", g.loc(t["line"]))
             elif role == "frontend-request":
                 # hdr_flags | 1 : evaluate with the configurable flags = 0 and = NEED_REPLY
                 leaf = [s for s in subterms(args[1]) if s[0] == "field"]
@@ -290,6 +290,19 @@ def w3(fb, chk):
                           "request header built with constant flags %s (want 0)" % (hex(fv) if fv is not None else show(args[1])),
                           g.loc(t["line"]))
     chk.floor("W3", ncallers, 5)
+    # reply headers, whatever way they are put together (constructor call, copy of the request plus setters, literal):
+    # read the returned value field by field on every success path
+    from . import headers
+    for adt in ("BackendReqHandler", "FrontendReqHandler"):
+        for g in fb.find(self_adt=adt):
+            if g.trait or g.name == "new" or "MsgHeader" not in (g.rec.get("sig_out") or ""):
+                continue
+            hs = headers.built_headers(fb, g)
+            bad = sorted({hex(h["flags_value"]) if h["flags_value"] is not None else show(h["flags"])[:60] for h in hs
+                          if h["flags_value"] != (wire.FLAG_REPLY | wire.FLAG_VERSION)})
+            chk.check(bool(hs) and not bad, "W3", "reply-header-value:%s" % g.short, "flags word = 0x5 (version 1 | REPLY) on %d success paths" % len(hs),
+                      "%s returns a reply/ack header whose flags word is %s; the specification prescribes exactly version 1 | REPLY (0x5): "
+                      "NEED_REPLY clear and nothing carried over from the request" % (g.short, bad or "not readable"), g.loc())
 
 
 def caller_role(g):
